@@ -97,8 +97,14 @@ func (h *Handler) handleReport(w http.ResponseWriter, r *http.Request) error {
 	}
 
 	if report.Query != nil {
+		if err := internal.CheckPropSelection(report.Query.Prop, report.Query.AllProp, report.Query.PropName); err != nil {
+			return err
+		}
 		return h.handleQuery(r, w, report.Query)
 	} else if report.Multiget != nil {
+		if err := internal.CheckPropSelection(report.Multiget.Prop, report.Multiget.AllProp, report.Multiget.PropName); err != nil {
+			return err
+		}
 		return h.handleMultiget(r.Context(), w, report.Multiget)
 	}
 	return internal.HTTPErrorf(http.StatusBadRequest, "caldav: expected calendar-query or calendar-multiget element in REPORT request")
